@@ -42,6 +42,7 @@ func run(c Case) (f *failure, nontrivial bool) {
 	}
 	hadSubs := map[int]bool{}
 	connectedAtStep := map[int]int{}
+	inWindow := false
 	for i, st := range c.Steps {
 		switch st.Op {
 		case "sub":
@@ -88,6 +89,17 @@ func run(c Case) (f *failure, nontrivial bool) {
 				nontrivial = true
 			}
 		}
+		// between the restart of a failed node and the end of the survivors' purge window the
+		// records of its first life are still listed by design
+		if st.Op == "failrestart" {
+			inWindow = true
+		}
+		if st.Op == "wait" && st.IdleMs >= 3000 {
+			inWindow = false
+		}
+		if inWindow {
+			continue
+		}
 		if c.ManualGossip {
 			if st.Op == "gossipall" {
 				if m := w.CheckState(); m != "" {
@@ -124,7 +136,7 @@ func check(t ev.TB, c Case, labels ...string) {
 	ids := map[string]int{}
 	for _, st := range c.Steps {
 		switch st.Op {
-		case "close", "raw", "failnode", "disconnect", "subclose", "pubclose", "restartnode":
+		case "close", "raw", "failnode", "disconnect", "subclose", "pubclose", "restartnode", "failrestart":
 			labels = append(labels, "cause:"+st.Op)
 		case "connect":
 			ids[st.ClientID]++
@@ -287,5 +299,44 @@ func TestGossipSchedules(t *testing.T) {
 			}
 		}
 		check(t, c, "manual-gossip")
+	})
+}
+
+// TestQuickRestart: a node's process dies and is restarted under the same node id within the
+// 3 s after which the survivors purge the failed peer's records (a supervisor restarting the
+// broker). Clients connect to the new process inside and after that window. When the window
+// is over: the sessions of the first life are gone everywhere with their subscriptions, the
+// sessions of the second life are listed everywhere and keep their subscriptions.
+func TestQuickRestart(t *testing.T) {
+	rapid.Check(t, func(t *rapid.T) {
+		c := Case{Nodes: rapid.IntRange(2, 3).Draw(t, "nodes"), Clients: 6}
+		victim := rapid.IntRange(0, c.Nodes-1).Draw(t, "victim")
+		other := (victim + 1) % c.Nodes
+		will := func(i int) *sim.Will {
+			if rapid.Bool().Draw(t, "will") {
+				return &sim.Will{Topic: "a", Payload: fmt.Sprintf("will-of-%d", i), QoS: 0}
+			}
+			return nil
+		}
+		c.Steps = append(c.Steps,
+			sim.Step{Op: "connect", C: 0, Node: other, ClientID: "watcher", KeepAlive: 6000},
+			sim.Step{Op: "sub", C: 0, Filters: []string{"#"}, QoS: []int{0}},
+			sim.Step{Op: "connect", C: 1, Node: victim, ClientID: "first-life-1", KeepAlive: 6000, Will: will(1)},
+			sim.Step{Op: "sub", C: 1, Filters: []string{"a/#"}, QoS: []int{1}},
+			sim.Step{Op: "connect", C: 2, Node: victim, ClientID: "first-life-2", KeepAlive: 6000, Will: will(2)},
+			sim.Step{Op: "failrestart", Node: victim})
+		// inside the window
+		if rapid.Bool().Draw(t, "connectInside") {
+			c.Steps = append(c.Steps, sim.Step{Op: "wait", IdleMs: int64(rapid.SampledFrom([]int{0, 500, 2000}).Draw(t, "inside"))},
+				sim.Step{Op: "connect", C: 3, Node: victim, ClientID: rapid.SampledFrom([]string{"second-life", "first-life-1"}).Draw(t, "cid"), KeepAlive: 6000, Will: will(3)},
+				sim.Step{Op: "sub", C: 3, Filters: []string{"b/#"}, QoS: []int{0}})
+		}
+		c.Steps = append(c.Steps, sim.Step{Op: "wait", IdleMs: 3600})
+		if rapid.Bool().Draw(t, "connectAfter") {
+			c.Steps = append(c.Steps, sim.Step{Op: "connect", C: 4, Node: victim, ClientID: "after-window", KeepAlive: 6000},
+				sim.Step{Op: "sub", C: 4, Filters: []string{"a/b"}, QoS: []int{0}})
+		}
+		c.Steps = append(c.Steps, sim.Step{Op: "pub", C: 0, Topic: "a/b", Payload: "probe", PQoS: 1})
+		check(t, c, "quick-restart")
 	})
 }
